@@ -40,7 +40,8 @@ EXPLANATION = (
     "passing the success edge of tofu_db.verify, lies on every path to awaiting the response "
     "when TOFU is active, and is absent from every feasible path for a failing verdict or an "
     "unreadable certificate. (F3) hops use the same function. TLS handshake bytes (SNI) are "
-    "outside the property."
+    "outside the property. "
+    "(F4) = C03.T10 option wiring. (F5) = C03.T4: a match is reported only from comparing with the pin stored now."
 )
 
 
